@@ -146,6 +146,10 @@ fn prog(flags: &str, src: &str) -> String {
         Ok(Ok(c)) => c,
     };
     let t = code.return_type();
+    if flags.split(',').any(|f| f == "noexec") {
+        // static verdict and type only (the checker-model correspondence needs nothing else)
+        return format!("(accepted {} (not-run))", canon::ty(&t));
+    }
     format!("(accepted {} {})", canon::ty(&t), run_code(&code))
 }
 
